@@ -166,10 +166,21 @@ Definition open_ids (o : list (N * wsize * nat)) : list N := map (fun t => fst (
 Definition w_validate (sp : spec) (id : N) (o : list (N * wsize * nat)) : bool :=
   validate_tag_path sp id (map (fun t => (fst (fst t), true)) o).
 
+(* TSpec::get_tag_data_type(id).filter(|t| matches!(t, Binary) || tag.as_binary().is_none()) *)
+Definition raw_type (t : tag) (ty : option dtype) : option dtype :=
+  match t, ty with
+  | TElem _ (VRaw _), Some DBinary => ty
+  | TElem _ (VRaw _), _ => None
+  | TElem _ (VB _), Some DBinary => ty
+  | TElem _ (VB _), _ => None
+  | _, _ => ty
+  end.
+
 (* buffer_tag: everything write_advanced does except the final flush and the rollback *)
 Fixpoint buffer_tag (sp : spec) (t : tag) (o : wopts) (st : wst) {struct t} : wst * wres :=
   let id := tag_id t in
-  let ty := get_type sp id in
+  (* a raw tag (it answers as_binary() only) is written as is whatever type its id is declared with, like an undeclared id (fix D27) *)
+  let ty := raw_type t (get_type sp id) in
   if o_unknown o && negb (is_master_ty ty) then (st, WErr ESize) else
   (* tag.as_master().unwrap_or_else(panic) is evaluated when the type is Master *)
   if is_master_ty ty && negb (is_master_tag t) then (st, WPanic) else
